@@ -7,7 +7,7 @@ from ..poolmodel import *
 from ..affine import affine
 from .c01 import own_row_info, _is_lease_result
 
-EXPLANATION = ("range-bound, sanitiser, subtraction and ordering rules: host ranges built from `1 << (32 - prefixlen)` are "
+EXPLANATION = ("range-bound, sanitiser, subtraction and ordering rules: host ranges built from the subnet size (`1 << (32 - prefixlen)` or the host mask `u32::MAX >> prefixlen`) are "
                "normalised to affine form and must span offsets 1 .. size-2 (both ends); the address set handed to the pool has "
                "had the receiving address removed on every path; a policy's stored set is its own addresses minus every "
                "child's used addresses, and used-addresses is own ∪ children recursively; apply-range is an inclusive range of "
@@ -18,13 +18,37 @@ ASSUMPTIONS = ["not decided: set equality Allowed = D(config, ...) over arbitrar
 EXTRA_CONFIGS = ["dhcp"]
 
 
-def _is_shl_size(t):
-    """1 << (32 - prefixlen)"""
+def _size_offset(t):
+    """k such that t == S + k, where S = 2^(32 - prefixlen) is the size of the subnet:
+         1 << (32 - prefixlen)                                   ->  0
+         u32::MAX >> prefixlen  (also checked_shr(..).unwrap_or(0), which only differs for /32 where both are 0)  -> -1"""
     if t[0] == "bin" and t[1] in ("Shl", "ShlUnchecked"):
         a = norm(t[2])
         if a[0] == "const" and a[1] == 1:
-            return any(s[0] == "field" and s[2] == "prefixlen" for s in subterms(t[3]))
-    return False
+            sh = norm(t[3])
+            subs = [x for x in subterms(sh) if x[0] == "bin" and x[1].startswith("Sub")]
+            if any(x[0] == "field" and x[2] == "prefixlen" for x in subterms(sh)) and any(
+                    norm(x[2])[0] == "const" and norm(x[2])[1] == 32 for x in subs):
+                return 0
+        return None
+    sh = None
+    if t[0] == "bin" and t[1] in ("Shr", "ShrUnchecked"):
+        sh = (norm(t[2]), norm(t[3]))
+    if t[0] == "call" and str(t[1]).endswith("::unwrap_or") and len(t[2]) == 2:
+        inner, dflt = norm(t[2][0]), norm(t[2][1])
+        if dflt[0] == "const" and dflt[1] == 0 and inner[0] == "call" and str(inner[1]).endswith("::checked_shr"):
+            sh = (norm(inner[2][0]), norm(inner[2][1]))
+    if sh is not None:
+        a, b = sh
+        allones = a[0] == "const" and (a[1] == 0xFFFFFFFF or a[1] == ("named", "core::num::<impl u32>::MAX"))
+        if allones and any(x[0] == "field" and x[2] == "prefixlen" for x in subterms(b)) and not any(
+                x[0] == "bin" for x in subterms(b)):
+            return -1
+    return None
+
+
+def _is_shl_size(t):
+    return _size_offset(t) is not None
 
 
 def run(ctx):
@@ -53,7 +77,7 @@ def run(ctx):
                 show(f["start"])[:80], show(f["end"])[:120]))
             continue
         first = st[1] if not st[0] else None
-        last = en[1] - (0 if inclusive else 1)   # last offset relative to size S: S + last
+        last = en[1] + _size_offset(list(en[0])[0]) - (0 if inclusive else 1)   # last offset relative to size S: S + last
         ctx.check(first == 1, "R1", "host-range:%s:first-offset=%s" % (tag, first), where,
                   "the first leasable host is network+1 (first offset is %s)" % first)
         ctx.check(last == -2, "R1", "host-range:%s:last-offset=size%+d" % (tag, last), where,
@@ -71,7 +95,8 @@ def run(ctx):
                     en = affine(a[1], _is_shl_size)
                     st = affine(a[0], _is_shl_size)
                     tag = b.id.split("::")[-1]
-                    okk = st is not None and en is not None and not st[0] and st[1] == 1 and list(en[0].values()) == [1] and en[1] == -2
+                    okk = st is not None and en is not None and not st[0] and st[1] == 1 and list(en[0].values()) == [1] and \
+                        en[1] + _size_offset(list(en[0])[0]) == -2
                     ctx.check(okk, "R1", "host-range:%s:inclusive:1..=size-2" % tag, ctx.where(b, tm["sp"]), "start %s end %s" % (st, en))
     ctx.floor("R1", "host ranges derived from a prefix length", n, 2)
 
